@@ -59,6 +59,11 @@ fn attrs(v: Violation, form: &str, a: &Dec, b: &Dec) -> Violation {
     v.attr("form", form).attr("zero_divisor", b.n.is_zero()).attr("numerator_is_one", a.eq_val(&Dec::new(1, 0))).attr("digits_a", ndigits(&a.n)).attr("digits_b", ndigits(&b.n))
 }
 
+thread_local! {
+    /// the division performed just before the one being checked (call histories, S7)
+    static AFTER: std::cell::RefCell<Option<serde_json::Value>> = std::cell::RefCell::new(None);
+}
+
 /// decimal / decimal through the four ownership forms: oracle on the first, exact agreement of the rest
 fn check_dec(run: &Run, a: &Dec, b: &Dec, forms: &[(&'static str, F2)], t: &mut Tally) {
     let (xa, xb) = (bd(a), bd(b));
@@ -66,7 +71,11 @@ fn check_dec(run: &Run, a: &Dec, b: &Dec, forms: &[(&'static str, F2)], t: &mut 
     let mut first: Option<Dec> = None;
     for (name, f) in forms {
         t.transitions += 1;
-        let case = json!({"kind": "dec", "form": name, "a": a.show(), "b": b.show()});
+        let mut case = json!({"kind": "dec", "form": name, "a": a.show(), "b": b.show()});
+        // a history recorded by the caller (the division performed just before on this thread)
+        if let Some(h) = AFTER.with(|h| h.borrow().clone()) {
+            case["after"] = h;
+        }
         match guard(|| f(&xa, &xb)) {
             Err(e) => run.report(attrs(Violation::new(&format!("div {}", name), "panic", case, "a quotient", e), name, a, b)),
             Ok(r) => {
@@ -281,6 +290,12 @@ fn main() {
             } else {
                 let (a, b) = (jd(&case["a"]), jd(&case["b"]));
                 let one: Vec<(&'static str, F2)> = forms.iter().filter(|f| f.0 == case["form"].as_str().unwrap()).cloned().collect();
+                if let Some(h) = case.get("after") {
+                    // a recorded history: the earlier division first
+                    let (pa, pb) = (bd(&jd(&h["a"])), bd(&jd(&h["b"])));
+                    let _ = guard(|| &pa / &pb);
+                    AFTER.with(|c| *c.borrow_mut() = Some(h.clone()));
+                }
                 check_dec(&run, &a, &b, &one, &mut t);
             }
             t
@@ -573,6 +588,30 @@ fn main() {
                 t.nontrivial += 8;
                 check_dec(&run, &Dec { n: x.clone(), s: sa }, &Dec { n: y.clone(), s: sb }, &forms, &mut t);
                 check_dec(&run, &Dec { n: y.clone(), s: sa }, &Dec { n: -x.clone(), s: sb }, &forms, &mut t);
+            }
+        }
+        t
+    });
+
+    // S7: call histories of length two: a division straight after another division on the same thread, every ordered
+    // pair of a small set of (dividend, divisor); division is pure, so the second quotient is judged by the model
+    // whatever came first
+    let hpairs: Vec<(Dec, Dec)> = vec![
+        (Dec::new(1, 0), Dec::new(3, 0)), (Dec::new(2, 0), Dec::new(3, 0)), (Dec::new(1, 0), Dec::new(7, 0)), (Dec::new(-22, 0), Dec::new(7, 1)), (Dec::new(1, 0), Dec::new(8, 0)),
+        (Dec::new(10, 0), Dec::new(3, 0)), (Dec::new(1, 5), Dec::new(3, -5)), (Dec { n: pow10(40) + 1, s: 0 }, Dec::new(3, 0)), (Dec::new(1, 0), Dec { n: pow10(19) + 7, s: 0 }), (Dec::new(3, 0), Dec::new(1, 0)),
+    ];
+    run.bound("S7_history_pairs", hpairs.len() * hpairs.len());
+    run.par("S7 call histories of length two", hpairs.len(), |i| {
+        let mut t = Tally::default();
+        let (pa, pb) = (bd(&hpairs[i].0), bd(&hpairs[i].1));
+        for (a, b) in hpairs.iter() {
+            t.states += 1;
+            t.nontrivial += 4;
+            for form in forms.iter() {
+                let _ = guard(|| &pa / &pb);
+                AFTER.with(|c| *c.borrow_mut() = Some(json!({"a": hpairs[i].0.show(), "b": hpairs[i].1.show()})));
+                check_dec(&run, a, b, &[*form], &mut t);
+                AFTER.with(|c| *c.borrow_mut() = None);
             }
         }
         t
